@@ -116,8 +116,13 @@ type closeRec struct {
 	returned  bool
 }
 
-func Run(c Case) core.Result {
-	res := core.Result{}
+func Run(c Case) (res core.Result) {
+	mark := core.RaceMark()
+	defer func() {
+		if res.Violation == "" && res.Inconclusive == "" {
+			res = core.RaceResult(res, "C16", core.RaceSince(mark))
+		}
+	}()
 	grace := time.Duration(c.GraceMS) * time.Millisecond
 	if grace <= 0 {
 		grace = 15 * time.Millisecond
